@@ -27,19 +27,20 @@ type Ctx struct {
 	ReplayIdx    int
 	ReplayStream string
 
-	mu          sync.Mutex
-	start       time.Time
-	evaluations int64
-	distinct    map[string]struct{}
-	counters    map[string]int64
-	samples     []any
-	maxSamples  int
-	gates       []gate
-	violations  map[string]string // signature -> replay path (unlisted ones)
-	known       map[string]string // signature -> description (from file)
-	knownHit    map[string]bool
-	extra       map[string]any
-	nviol       int
+	mu            sync.Mutex
+	start         time.Time
+	evaluations   int64
+	distinct      map[string]struct{}
+	counters      map[string]int64
+	samples       []any
+	maxSamples    int
+	gates         []gate
+	violations    map[string]string // signature -> replay path (unlisted ones)
+	known         map[string]string // signature -> description (from file)
+	knownHit      map[string]bool
+	extra         map[string]any
+	nviol         int
+	distinctExtra int64
 }
 
 type gate struct {
@@ -255,7 +256,7 @@ func (c *Ctx) Finish(level, rule string, assumptions []string) {
 	c.mu.Lock()
 	cov := map[string]any{
 		"evaluations":         c.evaluations,
-		"distinct_nontrivial": len(c.distinct),
+		"distinct_nontrivial": int64(len(c.distinct)) + c.distinctExtra,
 		"rule":                rule,
 		"samples":             c.samples,
 		"counters":            c.counters,
@@ -302,7 +303,7 @@ func (c *Ctx) Finish(level, rule string, assumptions []string) {
 		}
 	}
 	fmt.Printf("SUMMARY property=%s tier=%s seed=%d evaluations=%d distinct_nontrivial=%d violations=%d wall_s=%.1f\n",
-		c.Prop, c.Tier, c.Seed, c.evaluations, len(c.distinct), nviol, time.Since(c.start).Seconds())
+		c.Prop, c.Tier, c.Seed, c.evaluations, int64(len(c.distinct))+c.distinctExtra, nviol, time.Since(c.start).Seconds())
 	keys := make([]string, 0, len(c.counters))
 	for k := range c.counters {
 		keys = append(keys, k)
@@ -335,4 +336,12 @@ func JSON(v any) string {
 		return fmt.Sprintf("%v", v)
 	}
 	return string(b)
+}
+
+// DistinctAdd adds n cases that are distinct by construction (exhaustive enumerations).
+func (c *Ctx) DistinctAdd(prefix string, n int) {
+	c.mu.Lock()
+	c.distinctExtra += int64(n)
+	c.mu.Unlock()
+	_ = prefix
 }
